@@ -6,6 +6,7 @@ From PX.Lib Require Import Base PyStr PyInt Regex Xml XmlSer.
 From PX.Gen Require Import MapRegexes.
 From PX.Model Require Import Show Path Segment Syntax MapLoad MapTree Element Units.
 From PX.Spec Require C15_link.
+From PX.Model Require UnitsOut.
 
 Definition menv := list (str * xml).
 
@@ -238,4 +239,7 @@ Definition dispatch_env (e : menv) (unit : str) (args : list str) : str :=
   else if str_eqb unit (sl "segvalid") then unit_segvalid e args
   else if str_eqb unit (sl "elevalid") then unit_elevalid e args
   else if str_eqb unit (sl "c15_spec") then unit_c15_spec e args
+  else if str_eqb unit (sl "html") then UnitsOut.unit_html args
+  else if str_eqb unit (sl "xmlout") then UnitsOut.unit_xmlout (fun name => load_named e name [] (sl "B")) args
+  else if str_eqb unit (sl "xmlin") then UnitsOut.unit_xmlin args
   else dispatch unit args.
